@@ -225,3 +225,52 @@ pub fn amounts_narrowest(n: usize, w: usize) -> Vec<Nat> {
     }
     out
 }
+
+/// Word lattice: every storage word independently takes each of a few boundary values
+/// (0, 1, MAX, MAX-1, top bit only, all but the top bit), truncated to length l. Covers carry /
+/// borrow / partial-product chains through every combination of "absorbing", "propagating" and
+/// "generating" words. `rich` = six values per word (up to 4 words), otherwise {0, 1, MAX}.
+pub fn wordlat(l: usize, w: usize, rich: bool) -> Vec<Bits> {
+    if l == 0 {
+        return vec![Bits::new()];
+    }
+    let nw = (l + w - 1) / w;
+    let pats: Vec<Vec<bool>> = {
+        let zero = vec![false; w];
+        let one: Vec<bool> = (0..w).map(|i| i == 0).collect();
+        let max = vec![true; w];
+        let maxm1: Vec<bool> = (0..w).map(|i| i != 0).collect();
+        let top: Vec<bool> = (0..w).map(|i| i + 1 == w).collect();
+        let ntop: Vec<bool> = (0..w).map(|i| i + 1 != w).collect();
+        if rich && nw <= 4 {
+            vec![zero, one, max, maxm1, top, ntop]
+        } else if nw <= 6 {
+            vec![zero, one, max]
+        } else {
+            vec![zero, max]
+        }
+    };
+    let mut out: BTreeSet<Vec<bool>> = BTreeSet::new();
+    let mut idx = vec![0usize; nw];
+    loop {
+        let mut v: Vec<bool> = Vec::with_capacity(nw * w);
+        for k in 0..nw {
+            v.extend_from_slice(&pats[idx[k]]);
+        }
+        v.truncate(l);
+        out.insert(v);
+        // next combination
+        let mut k = 0;
+        loop {
+            if k == nw {
+                return out.into_iter().map(Bits).collect();
+            }
+            idx[k] += 1;
+            if idx[k] < pats.len() {
+                break;
+            }
+            idx[k] = 0;
+            k += 1;
+        }
+    }
+}
